@@ -54,6 +54,7 @@ SIG_PARAMS_SERIAL = "llm-params-wrong-without-overlap"
 SIG_KEY = "history-cache-hit-for-different-messages"
 SIG_CACHE = "history-cache-shared-instance-differs-from-fresh"
 SIG_CTX = "request-context-leaks-between-requests"
+SIG_PROMPT = "llm-prompt-contains-another-conversations-data"
 SIG_G = "generation-depends-on-instance-state-beyond-the-events"
 
 PARAM_NAMES = {"temperature": 0, "max_tokens": 1, "top_p": 2, "n": 3, "seed": 4}
@@ -232,6 +233,41 @@ define bot inform beta
 # registers on the instance (runtime.flow_configs), i.e. instance state beyond the history cache
 CONFIGS = {"general": YAML_GENERAL, "selfcheck": YAML_SELFCHECK % "False", "exc": YAML_SELFCHECK % "True",
            "dialog": ("models: []\nenable_multi_step_generation: True\n", COLANG_DIALOG)}
+# "ctxrail": per-conversation context variables reach (a) an action parameter of an input rail
+# (`execute check_membership(user_id=$user_id)`) and (b) prompt templates through OPTIONAL template
+# variables (relevant_chunks is passed by the general task only, both templates mention it)
+CONFIGS["ctxrail"] = ("""
+models:
+  - type: main
+    engine: fake
+    model: fake
+rails:
+  input:
+    flows:
+      - check membership
+      - self check input
+prompts:
+  - task: self_check_input
+    content: |-
+      Check: {{ user_input }}
+      Answer:{% if relevant_chunks %} [context {{ relevant_chunks }}]{% endif %}
+  - task: general
+    content: |-
+      {{ general_instructions }}{% if relevant_chunks %}
+      Context: {{ relevant_chunks }}{% endif %}
+
+      {{ history | user_assistant_sequence }}
+      Assistant:
+""", """
+define bot refuse non member
+  "Sorry, this service is for members only."
+
+define subflow check membership
+  $is_member = execute check_membership(user_id=$user_id)
+  if not $is_member
+    bot refuse non member
+    stop
+""")
 WORDS_DIALOG = ["hello", "hi", "tell me about cats", "tell me about dogs", "what about x:y", "a:b", "q", "ok", "about:R"]
 _CFG = {}
 
@@ -244,8 +280,17 @@ def mk_app(config, kw=False):
         _CFG[config] = ns["RailsConfig"].from_content(colang_content=co, yaml_content=y)
     h = ns["Hooks"]()
     llm = ns["FnLLMKw"](h=h, model_kwargs={"top_p": 1.0}) if kw else ns["FnLLM"](h=h)
-    app = ns["LLMRails"](_CFG[config], llm=llm)
+    import copy
+    # every instance gets its OWN config object: a fresh instance must not share flow elements
+    # (mutable dicts) with an instance that already served requests
+    app = ns["LLMRails"](copy.deepcopy(_CFG[config]), llm=llm)
+    if config == "ctxrail":
+        app.register_action(_check_membership, "check_membership")
     return app, llm, h
+
+
+async def _check_membership(user_id=None):
+    return bool(user_id) and str(user_id).startswith("member-")
 
 
 # ---- canonical renderings ----
@@ -296,15 +341,40 @@ def coq_tok(t):
     return f"(t{t[0]} {C.coq_string(short(t[1]))})"
 
 
-def _cv(v, d):
+def _deep(v, depth, seen):
+    """Canonical deep rendering (uuids canonicalised, entries under fresh-id keys dropped,
+    nemoguardrails objects rendered through their attributes)."""
+    if isinstance(v, (str, int, float, bool, type(None))):
+        return _UUID.sub("<uuid>", v) if isinstance(v, str) else v
+    if depth <= 0 or id(v) in seen:
+        return "<...>"
+    seen = seen | {id(v)}
+    if isinstance(v, dict):
+        return {_UUID.sub("<uuid>", str(k)): _deep(x, depth - 1, seen) for k, x in v.items() if not _UUID.search(str(k))}
+    if isinstance(v, (list, tuple)):
+        return [_deep(x, depth - 1, seen) for x in v]
+    if isinstance(v, (set, frozenset)):
+        return sorted(json.dumps(_deep(x, depth - 1, seen), sort_keys=True, default=str) for x in v)
+    if (type(v).__module__ or "").startswith("nemoguardrails") and isinstance(getattr(v, "__dict__", None), dict):
+        return {"<" + type(v).__name__ + ">": {k: _deep(x, depth - 1, seen) for k, x in v.__dict__.items()}}
+    return "<" + type(v).__name__ + ">"
+
+
+def _cv(v, d, deep=True):
     if isinstance(v, (str, int, float, bool, type(None))):
         return _UUID.sub("<uuid>", repr(v))[:120]
     if isinstance(v, dict):
         ks = [_UUID.sub("<uuid>", str(k))[:80] for k in v]
         det = sorted(k for k in ks if "<uuid>" not in k)
-        return {"keys": det, "fresh_id_keys": len(ks) - len(det)}
+        out = {"keys": det, "fresh_id_keys": len(ks) - len(det)}
+        if deep:    # the VALUES too (flow configs: elements incl. action parameters, ...)
+            out["deep"] = hashlib.sha1(json.dumps(_deep(v, 9, frozenset()), sort_keys=True, default=str).encode()).hexdigest()[:16]
+        return out
     if isinstance(v, (list, tuple, set, frozenset)):
-        return {"len": len(v), "items": [_cv(x, d - 1) for x in list(v)[:60]] if d > 0 else None}
+        out = {"len": len(v), "items": [_cv(x, d - 1, False) for x in list(v)[:60]] if d > 0 else None}
+        if deep:
+            out["deep"] = hashlib.sha1(json.dumps(_deep(v, 9, frozenset()), sort_keys=True, default=str).encode()).hexdigest()[:16]
+        return out
     return "<" + type(v).__name__ + ">"
 
 
@@ -326,11 +396,11 @@ def instance_state(app):
             if (type(v).__module__ or "").startswith("nemoguardrails") and depth > 0:
                 walk(v, p, depth - 1)
             else:
-                c = _cv(v, 1)
+                c = _cv(v, 1, deep=not any(p == q or p.startswith(q + ".") for q in STATE_ALLOWED))
                 fresh = c.pop("fresh_id_keys", 0) if isinstance(c, dict) else 0
                 out[p] = (json.dumps(c, sort_keys=True, default=str), fresh)
 
-    walk(app, "app", 3)
+    walk(app, "app", 4)
     return out
 
 
@@ -338,6 +408,7 @@ def instance_state(app):
 STATE_ALLOWED = {
     "app.events_history_cache": "the history cache: modelled (Svc.HistCache), hits verified against the message list",
     "app.explain_info": "debug information about the latest request (explain()); not read by generation",
+    "app.llm_generation_actions.flows_index._items": "_search_flows_index replaces an index item's text by the item's own meta['flow'] on first use: idempotent, independent of the conversation",
 }
 
 
@@ -633,12 +704,25 @@ def adversaries(config, base, rng):
     return out
 
 
+def add_ctx(conv, idx, rng):
+    """ctxrail: the conversation starts with a context message carrying ITS user id (member or
+    guest) and, sometimes, retrieved chunks; both contain a marker unique to the conversation."""
+    mk = "mk%dz%04x" % (idx, rng.randrange(1 << 16))
+    content = {"user_id": rng.choice(["member-", "member-", "guest-"]) + mk}
+    if rng.random() < 0.6:
+        content["relevant_chunks"] = "chunk " + mk
+    conv = json.loads(json.dumps(conv))
+    conv[0] = [{"role": "context", "content": content}] + conv[0]
+    return conv
+
+
 def gen_sets(config, rng, n_random, n_adv):
     sets = []
     _WORDS_NOW[0] = WORDS_DIALOG if config == "dialog" else WORDS
+    ctx = (lambda c, i: add_ctx(c, i, rng)) if config == "ctxrail" else (lambda c, i: c)
     for _ in range(n_random):
         n = rng.choice([2, 2, 3])
-        convs = [rand_conv(rng) for _ in range(n)]
+        convs = [ctx(rand_conv(rng), i) for i in range(n)]
         if rng.random() < 0.3:
             convs[-1] = json.loads(json.dumps(convs[0]))      # identical twins
         opts, mode = rand_serving(rng, n)
@@ -650,12 +734,15 @@ def gen_sets(config, rng, n_random, n_adv):
         if rng.random() < 0.5:
             base = base + [[u("more")]]
             base = base[:3]
+        base = ctx(base, 0)
         advs = adversaries(config, base, rng)
         rng.shuffle(advs)
         for kind, conv in advs[:3]:
-            extra = [rand_conv(rng, 2)] if rng.random() < 0.3 else []
+            extra = [ctx(rand_conv(rng, 2), 2)] if rng.random() < 0.3 else []
             # the adversary may also continue for a turn
             conv = conv + ([[u("then")]] if rng.random() < 0.4 else [])
+            if config == "ctxrail" and rng.random() < 0.5:
+                conv = ctx(conv, 1)
             opts, mode = rand_serving(rng, 2 + len(extra), first_plain=True)
             sets.append({"config": config, "kind": kind, "convs": [base, conv] + extra, "opts": opts, "mode": mode})
     _WORDS_NOW[0] = None
@@ -720,6 +807,7 @@ def work_set(args):
     res["ctx_terms"] = []
     res["ctx_meta"] = []
     res["state_changed"], res["state_fresh_ids"], res["state_bad"] = {}, {}, []
+    markers = [set(_re_mod.findall(r"mk\d+z[0-9a-f]{4}", json.dumps(c))) for c in convs]
     gtable = {}
     for ci, recs0 in enumerate(iso):
         for r in recs0:
@@ -798,6 +886,13 @@ def work_set(args):
             if fabricated:
                 res["skipped_same_history"] += 1
                 continue
+            foreign = set().union(*[mks for ci, mks in enumerate(markers) if ci != r["c"]]) - markers[r["c"]] if len(markers) > 1 else set()
+            for prm in r["prompts"]:
+                leak = sorted(m for m in foreign if m in prm)
+                if leak:
+                    res["findings"].append((SIG_PROMPT, "a prompt sent to the LLM for conversation %d turn %d contains %s, which only occurs in another conversation's messages"
+                                            % (r["c"], r["k"], leak), dict(payload, prompt=prm, markers=leak)))
+                    break
             diffs = []
             if canon_reply(r["reply"]) != canon_reply(ir["reply"]):
                 diffs.append("reply")
@@ -1187,8 +1282,8 @@ def run(tier, seed, replay=None):
 
     sc = float(os.environ.get("C15_SCALE", "1"))        # development knob (mutation experiments); 1 in normal use
     n_key = 0 if replay else int((3000 if thorough else 600) * sc)
-    n_rand = 0 if replay else max(1, int((10 if thorough else 4) * sc))
-    n_adv = 0 if replay else max(1, int((8 if thorough else 3) * sc))
+    n_rand = 0 if replay else max(1, int((10 if thorough else 3) * sc))
+    n_adv = 0 if replay else max(1, int((8 if thorough else 2) * sc))
     cap = 200 if thorough else max(8, int(30 * sc))
     n_par = 0 if replay else int((6000 if thorough else 1200) * sc)
     n_conc = 0 if replay else int((400 if thorough else 64) * sc)
@@ -1234,7 +1329,7 @@ def run(tier, seed, replay=None):
 
     _t(out, 'key differential done')
     # ---- (2) conversations on shared vs fresh instances
-    for cfg in ("general", "selfcheck", "exc", "dialog"):
+    for cfg in ("general", "selfcheck", "exc", "dialog", "ctxrail"):
         sets += gen_sets(cfg, rng, n_rand, n_adv)
         if thorough and not replay and cfg == "exc":
             # one full 3 conversations x 3 turns set (richest config): all 1680 interleavings
